@@ -128,6 +128,9 @@ func (p Precompile) Run(evm *vm.EVM, contract *vm.Contract, readOnly bool) (bz [
 		return nil, err
 	}
 
+	// the message server moved coins in the sdk context: bring the cached balances in line
+	stateDB.SyncBalances()
+
 	cost := ctx.GasMeter().GasConsumed() - initialGas
 
 	if !contract.UseGas(cost) {
